@@ -417,6 +417,8 @@ class Checker:
 
     def on_cap(self, s, cap):
         prev = self.caps_seen.get(s)
+        if prev is not None and cap > prev:
+            self.cap_increases = getattr(self, "cap_increases", 0) + 1
         if prev is not None and cap < prev:
             self.bad("cap_monotone", "PASHA resource cap of rung system %s decreased from %s to %s" % (s, prev, cap))
         self.caps_seen[s] = cap
@@ -714,8 +716,10 @@ def run_spec(spec):
                 alive = False
             slots[i] = None
         elif kind == "U":
+            if next_id == 0 and not ev_terms:
+                continue  # before the first suggest the scheduler has no time keeper yet
             tid = next_id + op[1]
-            trials[tid] = Trial(trial_id=tid, config={"x": 0.5}, creation_time=t0)
+            trials[tid] = Trial(trial_id=tid, config={"x": "a" if spec["tiny_space"] else 0.5}, creation_time=t0)
             dec = do_report(tid, 1, op[2], op[3], None)
             if dec is None:
                 alive = False
@@ -758,6 +762,7 @@ def run(ctx, replay=None):
             ctx.h("events", k, st[k])
         ctx.h("events", "total", len(res["events"]))
         ctx.h("boundary_decisions", spec["type"], chk.boundary)
+        ctx.h("events", "pasha_cap_increases", getattr(chk, "cap_increases", 0))
         boundary_total += chk.boundary
         for v in chk.violations[:3]:
             ctx.violation("property", "%s %s (mode=%s, brackets=%d): %s" % (
